@@ -119,6 +119,10 @@ def e_get_many(c):
         I = c.own(I.tolist())
     elif c.rng.random() < 0.3:
         I = c.own(np.asarray(I, dtype=np.int32))
+    elif c.rng.random() < 0.2:
+        # a batch of batches [a, b, d] (works on the pinned tree, the result has shape [a, b])
+        I = c.own(np.stack([c.idx(2), c.idx(2), c.idx(2)]))
+        return Call('get_many', teneva.get_many, [c.tt(), I], may_fail=True)
     return Call('get_many', teneva.get_many, [c.tt(), I])
 
 
@@ -138,6 +142,15 @@ def e_interface(c):
         kw['P'] = c.own([c.rng.uniform(0.1, 1.0, k) for k in c.n])
     if c.rng.random() < 0.5:
         kw['i'] = c.ind() if c.rng.random() < 0.6 else c.own([int(x) for x in c.ind()])
+    if c.rng.random() < 0.12:
+        # a call that is rejected in the middle of its sweep (index outside the tensor, weight row too short): the arguments stay as they were
+        if c.rng.random() < 0.5:
+            bad = [int(x) for x in c.ind()]
+            bad[int(c.rng.integers(0, len(bad)))] = max(c.n) + 3
+            kw['i'] = c.own(bad) if c.rng.random() < 0.5 else c.own(np.array(bad))
+        else:
+            kw['P'] = c.own([c.rng.uniform(0.1, 1.0, k if j != len(c.n) // 2 else max(1, k - 1)) for j, k in enumerate(c.n)])
+        return Call('interface', teneva.interface, [c.tt()], kw, may_fail=True)
     return Call('interface', teneva.interface, [c.tt()], kw)
 
 
@@ -178,7 +191,10 @@ def e_qtt_to_tt(c):
 @entry()
 def e_tt_to_qtt(c):
     d = int(c.rng.integers(2, 4))
-    Y = c.own(c.tt_shape([_pick(c, [2, 4])] * d, _ranks(c)))
+    Y = c.tt_shape([_pick(c, [2, 4])] * d, _ranks(c))
+    if c.rng.random() < 0.15:
+        Y[int(c.rng.integers(0, d))] *= float(_pick(c, [1e150, 1e-150, 1e101, 1e-101]))      # magnitudes far from one
+    Y = c.own(Y)
     kw = {}
     if c.rng.random() < 0.5:
         kw = {'e': 1e-8, 'r': int(c.rng.integers(1, 5))}
@@ -518,7 +534,10 @@ def e_core_stab(c):
 
 @entry()
 def e_core_tt_to_qtt(c):
-    G = c.own(c.rng.standard_normal((int(c.rng.integers(1, 3)), _pick(c, [2, 4, 8]), int(c.rng.integers(1, 3)))))
+    G = c.rng.standard_normal((int(c.rng.integers(1, 3)), _pick(c, [2, 4, 8]), int(c.rng.integers(1, 3))))
+    if c.rng.random() < 0.15:
+        G = G * float(_pick(c, [1e150, 1e-150, 1e101, 1e-101]))
+    G = c.own(G)
     kw = {} if c.rng.random() < 0.5 else {'e': 1e-8, 'r': 3}
     return Call('core_tt_to_qtt', teneva.core_tt_to_qtt, [G], kw)
 
@@ -978,6 +997,8 @@ def e_sample_square(c):
         # keep the restart loop short: m well below the number of entries, few restarts allowed
         m = min(m, max(1, int(np.prod(c.n)) // 3))
         kw.update(m_fact=int(_pick(c, [3, 5])), max_rep=2)
+    elif c.rng.random() < 0.2:
+        kw['float_cf'] = int(_pick(c, [2, 4]))         # "special parameter": positions on a finer grid, returned as floats (works for integral values given as int)
     return Call('sample_square', teneva.sample_square, [c.tt(), m], kw, seed_kw='seed', may_fail=True)
 
 
